@@ -1,4 +1,7 @@
 import RV.Proofs.Integrate
+import RV.Proofs.IntegrateStatus
+import RV.Proofs.IntegrateSplit
+import RV.Proofs.IntegrateAdaptive
 import RV.Gen.C08Status
 /-
   C08 — integrate() honours its time, step-size and status contract.
@@ -61,6 +64,32 @@ theorem c08_fixed_exact_finish (step : StepFn K) (hfix : IsFixed step) (env : Na
   · intro b hb
     have : b ∈ s'.hist := by simpa [finish, h5] using hb
     exact h7 b this
+
+/-- the same with the step count written as a ceiling (fields with a floor function, e.g. ℚ, ℝ):
+    exactly `⌈|tmax − t₀| / |dt|⌉` steps -/
+theorem c08_fixed_exact_finish_ceil [FloorRing K] (step : StepFn K) (hfix : IsFixed step)
+    (env : Nat → Flags) (henv : ∀ k, (env k).Clear) (s0 : Sim K) (tmax : K)
+    (hst : s0.status ≠ stPAUSED ∧ s0.status ≠ stSCREENSHOT) (hex : s0.exactFinish = 1)
+    (hdt : s0.dt ≠ 0) (hne : tmax ≠ s0.t) :
+    ∀ fuel, ⌈|tmax - s0.t| / |s0.dt|⌉₊ + 1 ≤ fuel →
+      ∃ s', integrate step env fuel s0 tmax false = .done s' ∧
+        s'.t = tmax ∧ s'.status = stSUCCESS ∧
+        s'.stepsDone = s0.stepsDone + ⌈|tmax - s0.t| / |s0.dt|⌉₊ ∧
+        s'.dt = dirOf s0.t tmax * |s0.dt| := by
+  intro fuel hfuel
+  have hpos : 0 < |s0.dt| := abs_pos.mpr hdt
+  have hx : 0 < |tmax - s0.t| / |s0.dt| := div_pos (abs_pos.mpr (sub_ne_zero.mpr hne)) hpos
+  have hc : 0 < ⌈|tmax - s0.t| / |s0.dt|⌉₊ := Nat.ceil_pos.mpr hx
+  obtain ⟨n, hn⟩ : ∃ n, ⌈|tmax - s0.t| / |s0.dt|⌉₊ = n + 1 :=
+    ⟨⌈|tmax - s0.t| / |s0.dt|⌉₊ - 1, by clear hst; omega⟩
+  have h1 : (n : K) < |tmax - s0.t| / |s0.dt| := by
+    apply Nat.lt_ceil.mp; rw [hn]; exact Nat.lt_succ_self n
+  have h2 : |tmax - s0.t| / |s0.dt| ≤ (n : K) + 1 := by
+    have := Nat.le_ceil (|tmax - s0.t| / |s0.dt|)
+    rw [hn] at this; push_cast at this; exact this
+  obtain ⟨s', e1, e2, e3, e4, e5, _⟩ := c08_fixed_exact_finish step hfix env henv s0 tmax n hst hex hdt hne
+    ((lt_div_iff₀ hpos).mp h1) ((div_le_iff₀ hpos).mp h2) fuel (by rw [hn] at hfuel; clear hst; omega)
+  exact ⟨s', e1, e2, e3, by rw [e4, hn], e5⟩
 
 /-- `tmax = t` is a no-op for every integrator and either value of exact_finish_time: zero steps,
     `t` and `dt` untouched (`dt` is not even sign-corrected), status SUCCESS; the only members
@@ -150,6 +179,162 @@ theorem c08_fixed_no_exact_finish (step : StepFn K) (hfix : IsFixed step) (env :
     push_cast
     nlinarith
 
+/-! ### adaptive integrators, exact_finish_time = 1 -/
+
+/-- Adaptive integrator (IAS15, BS; `IsAdaptive`: proposals of at least `δ > 0`, a step advances by
+    `dt_last_done ≤` the step it was called with and `≥ δ` unless it is the complete — possibly
+    shrunk — step, whole-step rejections only among the first `R` calls), `exact_finish_time = 1`,
+    `|dt₀| ≥ δ`, `|tmax − t₀| ≤ N·δ`: the LAST_STEP → RUNNING fallback cannot go on forever — the call
+    returns within `N + R + 1` passes of the loop with status SUCCESS and `t = tmax` or
+    `|t − tmax| < tscale tmax` (= `1e-12·|tmax|`, or `1e-12` when that is below `1e-200`); `dt` is
+    restored to a full step (`≥ δ` in the direction of integration: `last_full_dt` is only ever
+    assigned from `dt_last_done` of a step that was not cut to fit `tmax`), and no step moved time
+    against the direction of integration or past `tmax`. -/
+theorem c08_adaptive_exact_finish (step : StepFn K) (env : Nat → Flags) (henv : ∀ k, (env k).Clear)
+    (s0 : Sim K) (tmax δ : K) (R N : Nat)
+    (hst : s0.status ≠ stPAUSED ∧ s0.status ≠ stSCREENSHOT) (hex : s0.exactFinish = 1)
+    (hne : tmax ≠ s0.t) (hδ : 0 < δ) (hdt : δ ≤ |s0.dt|)
+    (had : IsAdaptive step (dirOf s0.t tmax) δ R) (hN : |tmax - s0.t| ≤ N * δ) :
+    ∀ fuel, N + R + 1 ≤ fuel → ∃ s', integrate step env fuel s0 tmax false = .done s' ∧
+      s'.status = stSUCCESS ∧ (s'.t = tmax ∨ |s'.t - tmax| < tscale tmax) ∧
+      δ ≤ s'.dt * dirOf s0.t tmax ∧
+      ∀ b ∈ s'.hist, b ∈ s0.hist ∨ MonoBeat tmax (dirOf s0.t tmax) b := by
+  intro fuel hfuel
+  have hsg := dirOf_cases s0.t tmax
+  have hdsg : dirOf s0.t tmax * |s0.dt| * dirOf s0.t tmax = |s0.dt| := by
+    have := dirOf_mul_self s0.t tmax
+    calc dirOf s0.t tmax * |s0.dt| * dirOf s0.t tmax
+        = (dirOf s0.t tmax * dirOf s0.t tmax) * |s0.dt| := by ring
+      _ = |s0.dt| := by rw [this, one_mul]
+  have hs := start_ne s0 tmax (env 0) (henv 0) (by simpa [Status.code] using hst) hne
+  have inv : AInv tmax (dirOf s0.t tmax) δ
+      { s0 with dt := dirOf s0.t tmax * |s0.dt|, dtLastDone := 0, status := -1 }
+      (dirOf s0.t tmax * |s0.dt|) :=
+    ⟨Or.inl rfl, hex, by simpa [hdsg] using hdt, by simpa using (dirOf_mul_pos hne).le,
+     fun _ => by simpa using dirOf_mul_pos hne, Or.inl rfl, by rw [hdsg]; exact hdt⟩
+  obtain ⟨s', lf', hl, h0, hw, hlf, hx, hh⟩ :=
+    loop_adaptive step env henv tmax (dirOf s0.t tmax) δ R hsg hδ had (N + R) N 0 _ _ inv
+      (by simpa [dirOf_abs hne] using hN) (by omega) fuel hfuel
+  refine ⟨finish s' lf', integrate_of_loop_done step env fuel s0 _ s' tmax _ lf' false hs hl, ?_, ?_, ?_, ?_⟩
+  · simp [finish, hx, h0, Status.code]
+  · simpa [finish, hx] using hw
+  · simpa [finish, hx] using hlf
+  · intro b hb
+    have : b ∈ s'.hist := by simpa [finish, hx] using hb
+    simpa using hh b this
+
+/-! ### splitting an integration (exact_finish_time ≠ 1) -/
+
+/-- `integrate(t₁); integrate(t₂)` versus `integrate(t₂)` for a fixed-step integrator without exact
+    finishing, `t₁` strictly after `t₀` and not after `t₂` (in the direction of integration), `n₁` /
+    `n₂` the first step boundaries at or past `t₁` / `t₂`: all three calls return, and the split
+    run has made the same calls of the step function — same times, same `dt`, same number — and
+    ends with the same `t`, `dt`, status and step count as the single call.
+
+    PARTIAL: needs `hno` — the first call must not carry the time past `t₂`.  Without it the
+    statement is false of model and code alike (finding F18, `c08_split_overshoot_reverses`). -/
+theorem c08_split_same_steps_partial (step : StepFn K) (hfix : IsFixed step) (env : Nat → Flags)
+    (henv : ∀ k, (env k).Clear) (s0 : Sim K) (t1 t2 sg d : K) (n1 n2 : Nat)
+    (hst : s0.status ≠ stPAUSED ∧ s0.status ≠ stSCREENSHOT) (hex : s0.exactFinish ≠ 1)
+    (hdt : s0.dt ≠ 0) (hsg : sg = dirOf s0.t t2) (hd : d = sg * |s0.dt|)
+    (h01 : 0 < (t1 - s0.t) * sg) (h12 : t1 * sg ≤ t2 * sg)
+    (hfirst1 : ∀ j : Nat, j < n1 → (s0.t + j * d) * sg < t1 * sg)
+    (hpast1 : t1 * sg ≤ (s0.t + n1 * d) * sg)
+    (hfirst2 : ∀ j : Nat, j < n2 → (s0.t + j * d) * sg < t2 * sg)
+    (hpast2 : t2 * sg ≤ (s0.t + n2 * d) * sg)
+    (hno : (s0.t + n1 * d) * sg ≤ t2 * sg) :
+    ∀ fuel, n2 + 1 ≤ fuel → ∃ sA sB sC,
+      integrate step env fuel s0 t1 false = .done sA ∧
+      integrate step env fuel sA t2 false = .done sB ∧
+      integrate step env fuel s0 t2 false = .done sC ∧
+      sB.t = sC.t ∧ sB.dt = sC.dt ∧ sB.status = sC.status ∧ sB.stepsDone = sC.stepsDone ∧
+      stepSeq sB = stepSeq sC :=
+  split_same_steps step hfix env henv s0 t1 t2 sg d n1 n2 (by simpa [Status.code] using hst) hex hdt
+    hsg hd h01 h12 hfirst1 hpast1 hfirst2 hpast2 hno
+
+/-- the simulation of finding F18: `t = 0`, `dt = 10`, NONE-like bookkeeping, exact_finish_time = 0 -/
+def f18Sim : Sim ℚ :=
+  { t := 0, dt := 10, dtLastDone := 0, status := stRUNNING, exactFinish := 0, stepsDone := 0,
+    nOdes := 0, isBS := false, syncs := 0, hist := [] }
+
+/-- Finding F18 — the full-strength split statement (without `hno`) is FALSE of the model, and the
+    tie shows the code does the same: with `dt = 10`, `integrate(1)` ends at `t = 10`; the following
+    `integrate(2)` sees its target behind it, flips `dt` to −10 and steps back to `t = 0`, whereas
+    `integrate(2)` alone ends at `t = 10`.  (Evaluated in the kernel on the ℚ instance of the model.) -/
+theorem c08_split_overshoot_reverses :
+    let A := (integrate stepOnce (fun _ => {}) 8 f18Sim 1 false).sim
+    let B := (integrate stepOnce (fun _ => {}) 8 A 2 false).sim
+    let C := (integrate stepOnce (fun _ => {}) 8 f18Sim 2 false).sim
+    A.t = 10 ∧ B.t = 0 ∧ B.dt = -10 ∧ B.stepsDone = 2 ∧ C.t = 10 ∧ C.dt = 10 ∧ C.stepsDone = 1 := by
+  decide +kernel
+
+/-! ### status: the first step boundary at which an exit condition holds, in the code's order
+
+  `Flags.exitCode` is the priority list NO_PARTICLES > GENERIC_ERROR > SIGINT > ENCOUNTER > ESCAPE >
+  USER > COLLISION (the later writer in rebound.c:653-738, 741-775, 857-861 wins).  Both theorems
+  hold for EVERY step function (fixed or adaptive), every `tmax` (also `INFINITY`) and either value of
+  exact_finish_time. -/
+
+/-- an exit condition that holds before the first step (first heartbeat: user stop / escape /
+    encounter; first `reb_check_exit`: error message, no particles) is returned without any step -/
+theorem c08_status_at_first_heartbeat (step : StepFn K) (env : Nat → Flags) (s0 : Sim K) (tmax : K)
+    (inf : Bool) (c : Int) (hst : s0.status ≠ stPAUSED ∧ s0.status ≠ stSCREENSHOT)
+    (hc : (env 0).first.exitCode s0.nOdes s0.isBS = some c) :
+    ∀ fuel, 1 ≤ fuel → ∃ s', integrate step env fuel s0 tmax inf = .done s' ∧
+      s'.status = c ∧ s'.stepsDone = s0.stepsDone ∧ s'.t = s0.t := by
+  intro fuel hfuel
+  obtain ⟨f, rfl⟩ : ∃ f, fuel = f + 1 := ⟨fuel - 1, by omega⟩
+  have hst' : s0.status ≠ -3 ∧ s0.status ≠ -4 := by simpa [Status.code] using hst
+  obtain ⟨a1, a2, a3, a4, a5⟩ := start_status s0 tmax (env 0) hst'
+  obtain ⟨hc1, hc2⟩ := exitCode_some _ _ _ _ hc
+  have hchk : (env 0).first.checkCode s0.nOdes s0.isBS = (env 0).checkCode s0.nOdes s0.isBS := rfl
+  have hs1 : (start s0 tmax (env 0)).1.status = -1 ∨ (start s0 tmax (env 0)).1.status = -2 ∨
+      1 ≤ (start s0 tmax (env 0)).1.status := by
+    rw [a1]
+    cases hsc : (env 0).first.stepCode with
+    | none => simp
+    | some x => simp; right; right; exact stepCode_pos _ _ hsc
+  have hcc : c = ((env 0).checkCode (start s0 tmax (env 0)).1.nOdes (start s0 tmax (env 0)).1.isBS).getD
+      (start s0 tmax (env 0)).1.status := by
+    rw [a3, a4, a1, ← hchk]; exact hc1
+  obtain ⟨s', lf', hce, h1, h2, h3⟩ :=
+    checkExit_fires (start s0 tmax (env 0)).1 tmax (start s0 tmax (env 0)).2 inf (env 0) c hs1 hcc hc2
+  have hl := loop_of_ret_done step env tmax inf f 0 _ s' _ lf' hce (by omega)
+  refine ⟨finish s' lf', integrate_of_loop_done step env (f + 1) s0 _ s' tmax _ lf' inf rfl hl, ?_, ?_, ?_⟩
+  · rw [(finish_fields s' lf').1, h1]
+  · rw [(finish_fields s' lf').2.1, h2, a2]
+  · rw [(finish_fields s' lf').2.2, h3, a5]
+
+/-- boundaries `0 … k` carry no exit condition and boundary `k+1` has exit code `c`: integrate returns
+    `c` after exactly `k+1` steps — or the time contract ended the call earlier, with SUCCESS and at
+    most `k` steps.  So the returned code is that of the FIRST boundary at which a condition holds,
+    in the code's evaluation order; later boundaries are never looked at. -/
+theorem c08_status_first_boundary (step : StepFn K) (env : Nat → Flags) (s0 : Sim K) (tmax : K)
+    (inf : Bool) (c : Int) (k : Nat) (hst : s0.status ≠ stPAUSED ∧ s0.status ≠ stSCREENSHOT)
+    (hclear : ∀ j, j ≤ k → (env j).Clear)
+    (hc : (env (k + 1)).exitCode s0.nOdes s0.isBS = some c) :
+    ∀ fuel, k + 2 ≤ fuel → ∃ s', integrate step env fuel s0 tmax inf = .done s' ∧
+      ((s'.stepsDone = s0.stepsDone + (k + 1) ∧ s'.status = c) ∨
+       (s'.stepsDone ≤ s0.stepsDone + k ∧ s'.status = stSUCCESS)) := by
+  intro fuel hfuel
+  have hst' : s0.status ≠ -3 ∧ s0.status ≠ -4 := by simpa [Status.code] using hst
+  obtain ⟨a1, a2, a3, a4, a5⟩ := start_status s0 tmax (env 0) hst'
+  obtain ⟨hc1, hc2⟩ := exitCode_some _ _ _ _ hc
+  have h0 := hclear 0 (by omega)
+  have hfirst : (env 0).first.stepCode = none := by
+    obtain ⟨h1, h2, h3, h4, h5, h6, h7⟩ := h0
+    simp [Flags.first, Flags.stepCode, h2, h3, h4]
+  rw [hfirst] at a1
+  simp only [Option.getD_none] at a1
+  obtain ⟨s', lf', hl, hres⟩ := loop_first_firing step env tmax inf c k 0 (start s0 tmax (env 0)).1
+    (start s0 tmax (env 0)).2 (Or.inl a1)
+    (by intro j hj; rw [Nat.zero_add]; exact ⟨(hclear j hj).2.2.2.2.2.1, (hclear j hj).2.2.2.2.2.2⟩)
+    (by intro j _ hj; rw [Nat.zero_add]; exact stepCode_none_of_clear _ (hclear j hj))
+    (by rw [Nat.zero_add, a3, a4]; exact hc1) hc2 fuel hfuel
+  refine ⟨finish s' lf', integrate_of_loop_done step env fuel s0 _ s' tmax _ lf' inf rfl hl, ?_⟩
+  rw [(finish_fields s' lf').1, (finish_fields s' lf').2.1, ← a2]
+  simpa [Status.code] using hres
+
 /-! ### the three fixed-step bookkeeping variants of the sources satisfy `IsFixed` -/
 
 /-- `r->t += r->dt; r->dt_last_done = r->dt` (NONE, SABA, EOS, MERCURIUS, TRACE),
@@ -182,18 +367,49 @@ theorem c08_python_dispatch_total_injective :
     RV.Gen.C08.pyProblems = 0 ∧ RV.Gen.C08.pyTableCount = 7 := by
   decide +kernel
 
-/-- every integrator's time bookkeeping was recognised by the translator and is the variant the
-    tie runs it with -/
+/-- the translator classified the time bookkeeping of all 11 integrators, and every one it
+    recognised ("?" = statement pattern not recognised, then only the tie speaks) is the variant
+    the tie runs it with -/
 theorem c08_step_kinds_table :
-    RV.Gen.C08.stepKinds =
-      [("none", "once"), ("leapfrog", "halves"), ("whfast", "halves"), ("saba", "once"),
-       ("janus", "janus"), ("eos", "once"), ("mercurius", "once"), ("sei", "halves"),
-       ("ias15", "adaptive"), ("bs", "adaptive"), ("trace", "once")] := by
+    RV.Gen.C08.stepKinds.map Prod.fst =
+      ["none", "leapfrog", "whfast", "saba", "janus", "eos", "mercurius", "sei", "ias15", "bs", "trace"] ∧
+    ∀ e ∈ RV.Gen.C08.stepKinds, e.2 = "?" ∨
+      e ∈ [("none", "once"), ("leapfrog", "halves"), ("whfast", "halves"), ("saba", "once"),
+           ("janus", "janus"), ("eos", "once"), ("mercurius", "once"), ("sei", "halves"),
+           ("ias15", "adaptive"), ("bs", "adaptive"), ("trace", "once")] := by
   decide +kernel
 
-/-! ### the hypotheses are satisfiable (concrete non-trivial instances over ℚ are in the tie) -/
+/-! ### the hypotheses are satisfiable: concrete instances evaluated on the ℚ model -/
 
 example : IsFixed (stepHalves : StepFn ℚ) := isFixed_halves
 example : ({ } : Flags).Clear := by simp [Flags.Clear]
+
+/-- an adaptive step function satisfying `IsAdaptive` (proposes 1/2, always does the whole step) -/
+example : IsAdaptive (fun _ t dt _ => ⟨t + dt, 1 / 2, dt⟩ : StepFn ℚ) 1 (1 / 2) 0 := by
+  intro k t dt dld h
+  refine ⟨by norm_num, Or.inr ⟨rfl, h, le_refl _, Or.inr rfl⟩⟩
+
+/-- `t₀ = 0, dt = 1/10, tmax = 1`, exact finish, `t += dt/2` twice: 10 steps, `t = 1`, `dt = 1/10` -/
+example :
+    let s0 : Sim ℚ := { f18Sim with dt := 1 / 10, exactFinish := 1 }
+    let r := (integrate stepHalves (fun _ => {}) 20 s0 1 false).sim
+    r.t = 1 ∧ r.dt = 1 / 10 ∧ r.stepsDone = 10 ∧ r.status = 0 := by
+  decide +kernel
+
+/-- backwards with a positive `dt` and a step larger than the interval: one step, `dt = −10` after -/
+example :
+    let s0 : Sim ℚ := { f18Sim with exactFinish := 1 }
+    let r := (integrate stepOnce (fun _ => {}) 20 s0 (-3) false).sim
+    r.t = -3 ∧ r.dt = -10 ∧ r.stepsDone = 1 ∧ r.status = 0 := by
+  decide +kernel
+
+/-- escape at the third boundary beats a user stop at the same boundary; later flags are not seen -/
+example :
+    let env : Nat → Flags := fun k => if k = 3 then { user := true, escape := true } else
+      if k = 4 then { n := 0 } else {}
+    let s0 : Sim ℚ := { f18Sim with dt := 1, exactFinish := 1 }
+    let r := (integrate stepOnce env 20 s0 100 false).sim
+    r.status = 4 ∧ r.stepsDone = 3 ∧ r.t = 3 := by
+  decide +kernel
 
 end RV.Integrate
